@@ -29,11 +29,11 @@ def P(theorems, quick, thorough, components, status, rule, explanation, assumpti
 
 PROPS = {
     'C01': P(
-        ['C01_parse_total', 'C01_lexer_terminates', 'C01_renderers_total', 'C01_to_postgres_total', 'C01_to_param_postgres_total', 'C01_no_format_error', 'C01_tokens_linear', 'C01_parse_steps_linear'],
+        ['C01_parse_total', 'C01_lexer_terminates', 'C01_renderers_total', 'C01_to_postgres_total', 'C01_to_param_postgres_total', 'C01_no_format_error', 'C01_tokens_linear', 'C01_parse_steps_linear', 'C01_parse_tree_linear'],
         [('corpus', 0), ('enum', 1500), ('rand', 5000), ('lex', 2500), ('big', 0), ('nearmiss', 0), ('inject', 2000), ('scale-list', 0), ('scale-giant', 0), ('scale-chain', 0), ('scale-prefix', 0), ('scale-layout', 0), ('scale-names', 0), ('scale-values', 0), ('scale-digits', 0), ('pairs', 0), ('optrees', 0)],
         [('corpus', 0), ('enum', 20000), ('rand', 60000), ('lex', 30000), ('big', 0), ('trees', 20000), ('inject', 30000), ('nearmiss', 0), ('scale-list', 0), ('scale-giant', 0), ('scale-chain', 0), ('scale-prefix', 0), ('scale-layout', 0), ('scale-names', 0), ('scale-values', 0), ('scale-digits', 0), ('pairs', 0), ('optrees', 0)],
         PARSE + PRINT + SQL,
-        'full: parser loop total within 4n+4 steps for every token list; at most |s|+1 tokens for |s| bytes, so the loop decides every input within 4|s|+8 iterations (linear, in the units of the model); all five renderers and both public wrappers return on every parse result; no bad formatting verb. Wall-clock cost of fmt/encoding-json is measured (observer watchdog), not proved.',
+        'full: parser loop total within 4n+4 steps for every token list; at most |s|+1 tokens for |s| bytes, so the loop decides every input within 4|s|+8 iterations, and the returned tree has at most 6|s|+3 nodes (a derivation over n tokens builds at most 6n-5), so one walk of the tree is linear too (in the units of the model); all five renderers and both public wrappers return on every parse result; no bad formatting verb. Wall-clock cost of fmt/encoding-json is measured (observer watchdog), not proved.',
         'token sequences exhaustively to length 3 (quick) / 4 (thorough) over a 26-symbol alphabet x {no default field, d}, random structured queries with every leaf kind, random byte strings incl. invalid UTF-8/NUL, adversarial 2k/10k-token shapes; non-trivial = accepted by Parse (all renderers then run); distinct = distinct parse trees',
         'Theorems quantify over all byte strings, default fields and oracles. The correspondence check ties the model to /repo on every run; PANIC and HANG (watchdog) are observables.',
         ['oracle record answers as Go stdlib (served by the Go helper, sampled by the run)', 'Go runtime stack exhaustion beyond ~10^5 nesting is outside the model']),
